@@ -183,16 +183,18 @@ _MRG = H('h_merger.c', 'asan', exclude=['mtbl/iter.c', 'mtbl/block.c', 'mtbl/rea
 CHECKS['C04'] = dict(
     level=MC, engine='seqx',
     technique='exhaustive enumeration of source families (every subset of a 4-key universe per source, up to 3-4 sources, reader/multi-block/invalidating user sources) drained through the real merger with a fold-tree merge function whose result reveals exactly which source values were combined',
-    text='Every family of k<=3 (thorough 4) sources, each any subset of {empty key, a, b, c}, with every combination of {merge function, none} x {dupsort, none} and four source kinds, is drained through the real merger. The merge callback returns "(v0+v1)" over unique value tags, so parsing a result yields the exact multiset of values folded - each used once - without prescribing a fold order. A callback failing for one key at its n-th invocation must make exactly the next() that would produce that key fail. User sources free their previous buffers on every call so that any stale use is an AddressSanitizer report.',
+    text='Every family of k<=3 (thorough 4) sources, each any subset of {empty key, a, b, c}, with every combination of {merge function, none} x {dupsort, none} and four source kinds, is drained through the real merger. The merge callback returns "(v0+v1)" over unique value tags, so parsing a result yields the exact multiset of values folded - each used once - without prescribing a fold order. A callback failing for one key at its n-th invocation must make exactly the next() that would produce that key fail. User sources free their previous buffers on every call so that any stale use is an AddressSanitizer report. The same content is also observed through mtbl_source_write() into a writer and through the real mtbl_merge binary with a merge DSO (output decoded independently).',
     jobs=[
         dict(name='drain', spec=_MRG, args=['drain']),
         dict(name='failing-callback', spec=_MRG, args=['fail']),
+        dict(name='source-write', spec=_MRG, args=['srcwrite']),
+        dict(name='mtbl_merge-tool', spec=_MRG, args=['tool'], tools=['mtbl_merge'], dsos=['fold_dso']),
     ],
     states_key='states', transitions_key='transitions', traces_key='executions',
     rule='one case = (source family, source kinds, merge on/off, dupsort on/off[, failing key, nth]); signature = (options, k, number of sources holding each key, kinds)',
     bounds={'quick': 'k<=3 sources x 16 subsets each x 4 source-kind assignments x 4 option combinations; failing callback: every key with >=2 holders x every invocation index',
             'thorough': 'k<=4 sources'},
-    nonzero=['states', 'drains_with_merging', 'drains_with_empty_key', 'failing_callback_runs'],
+    nonzero=['states', 'drains_with_merging', 'drains_with_empty_key', 'failing_callback_runs', 'source_write_runs', 'tool_runs'],
     assumptions=['order among equal keys without dupsort is unspecified and not checked', 'after a failed merge nothing further is checked (the statement fixes only that call)'],
     budget={'quick': 300, 'thorough': 1800},
 )
@@ -331,15 +333,15 @@ _CKS = H('h_cksum.c', 'asan', tu_flags={'mtbl/reader.c': ['-Dmmap=vf_mmap', '-Dm
 CHECKS['C12'] = dict(
     level=FE, engine='envshim',
     technique='exhaustive enumeration of bit-flip patterns (all single, double and triple flips; every burst with first and last flipped bit <=12 apart; pattern families for spans 13-32) in every block region of seed files, checked against mtbl_verify\'s own verify_file() and a verify_checksums reader',
-    text='Part 1: every file of the K9 structure sweep (depth<=3, six algorithms, prefix 0/13) must be reported OK by verify_file() of src/mtbl_verify.c (compiled into the harness, output captured) and drain completely through a verify_checksums reader. Part 2: on seven seed files (writer-made: one tiny block, three ~600-byte blocks with lz4 / uncompressed with prefix; independently encoded: three tiny blocks in v2, v1 and zlib, and eight one-entry blocks whose stored lengths cover every residue modulo 8; plus eight writer-made one-entry tables with value lengths 0..7, so that blocks of every length modulo 8 carry the checksum computed by the library itself). Every undamaged seed must itself verify. every flip pattern of the families above is applied inside each block\'s checksum+stored-bytes region, data blocks and index block alike; verify_file must never print OK or return true, and a verify_checksums reader iterating from the start or doing get() on the damaged block\'s keys must stop on its assertion before handing out any entry of that block.',
-    jobs=[dict(name='intact', spec=_CKS, args=['intact'])] + [dict(name='damage-seed%d' % k, spec=_CKS, args=['damage', str(k)]) for k in range(7)] + [dict(name='damage-writer-tiny', spec=_CKS, args=['damage', '10', '17'])],
+    text='Part 1: every file of the K9 structure sweep (depth<=3, six algorithms, prefix 0/13) must be reported OK by verify_file() of src/mtbl_verify.c (compiled into the harness, output captured) and drain completely through a verify_checksums reader. Part 2: on seven seed files (writer-made: one tiny block, three ~600-byte blocks with lz4 / uncompressed with prefix; independently encoded: three tiny blocks in v2, v1 and zlib, and eight one-entry blocks whose stored lengths cover every residue modulo 8; plus eight writer-made one-entry tables with value lengths 0..7, so that blocks of every length modulo 8 carry the checksum computed by the library itself). Every undamaged seed must itself verify. The real mtbl_verify binary (exit status and stdout) is run on every undamaged seed and on every 16th single-bit flip. every flip pattern of the families above is applied inside each block\'s checksum+stored-bytes region, data blocks and index block alike; verify_file must never print OK or return true, and a verify_checksums reader iterating from the start or doing get() on the damaged block\'s keys must stop on its assertion before handing out any entry of that block.',
+    jobs=[dict(name='intact', spec=_CKS, args=['intact'])] + [dict(name='damage-seed%d' % k, spec=_CKS, args=['damage', str(k)], tools=['mtbl_verify']) for k in range(7)] + [dict(name='damage-writer-tiny', spec=_CKS, args=['damage', '10', '17'], tools=['mtbl_verify'])],
     states_key='states', transitions_key='transitions', traces_key='cases',
     rule='one case = (seed, block region, flip pattern); signature = (seed, batch)',
-    bounds={'quick': 'triples: all for regions <=260 bits, else within a 40-bit window; pairs: all for regions <=1024 bits, else all within 64 bits plus a grid; bursts: every position (every 16th for regions >1024 bits) x all 2^(span-2) patterns for span<=12, 3+ pattern families for span 13..32',
+    bounds={'quick': 'triples: all for regions <=260 bits, else within a 40-bit window; pairs: all for regions <=1024 bits, else all within 64 bits plus a grid; bursts: every position (every 40th for regions >1024 bits) x all 2^(span-2) patterns for span<=12, 3+ pattern families for span 13..32',
             'thorough': 'triples: all for regions <=700 bits; pairs within 256 bits plus a finer grid; bursts at every position'},
-    nonzero=['cases', 'intact_files_verified', 'intact_seeds_verified', 'verify_rejected', 'reader_stopped'],
+    nonzero=['cases', 'intact_files_verified', 'intact_seeds_verified', 'verify_rejected', 'reader_stopped', 'tool_runs'],
     assumptions=['damage to the length prefix is outside the statement', 'which assertion stops the process is not prescribed'],
-    budget={'quick': 420, 'thorough': 3000},
+    budget={'quick': 600, 'thorough': 3000},
 )
 
 _FS = H('h_fileset.c', 'asan', exclude=['mtbl/fileset.c', 'libmy/my_fileset.c', 'mtbl/merger.c'], extra=[('merger_peek.c', None)])
